@@ -23,10 +23,12 @@
 //   * equal strings => equal hash (ST::hash, std::hash), fold-equal => equal hash_i;
 //   * to_upper / to_lower equal the bytewise ASCII mapping.
 #define VF_MAIN_TU
+#include "early.h"
 #include "verif.h"
 #include "alloc.h"
 #include "ref_cmpfind.h"
 #include "st_string.h"
+#include "early_battery.h"
 
 #include <memory>
 
@@ -1179,6 +1181,7 @@ static void build(vf::Plan &plan, const vf::Opts &o)
     add_wide_stages<char16_t>(plan, "W16", W16, WL, T16, T ? 3 : 2, {0x0000, 0x0041, 0xFFFF});
     add_wide_stages<char32_t>(plan, "W32", W32, WL, T32, T ? 3 : 2, {0x0, 0x41, 0x80000000u});
     add_wide_stages<wchar_t>(plan, "W32", W32, WL, T32, T ? 3 : 2, {0x0, 0x41, 0x80000000u});
+    vf_early::add_stage(plan);
 }
 
 VF_MAIN("C06", build)
